@@ -221,9 +221,20 @@ package container
 //@   loop 0: invariant forall k int :: 0 <= k && k <= rangeindex ==> FD.closed[s[k]]
 //@   loop 0: invariant forall d int :: old(FD.closed[d]) ==> FD.closed[d]
 
-//@ func container.lookPath
-//@   trusted "PATH search (file-system lookups and string handling only)"
-//@   pure
+// PATH search on request-controlled strings (argv[0], the environment): verified for memory safety and
+// termination - no index or slice can fail for any name or environment (C10: a request cannot crash the init)
+//@ func container.findExecutable props C10
+//@   arith int
+//@   assigns nothing
+//@ func container.findPath props C10
+//@   arith int
+//@   assigns nothing
+//@   loop 0: invariant -1 <= i && i < len(env)
+//@   loop 0: decreases i + 1
+//@ func container.lookPath props C10
+//@   arith int
+//@   assigns nothing
+//@   loop 0: invariant -1 <= rangeindex && rangeindex < len(path)
 
 // execve: every path that returns nil leaves the protocol idle (or the transport lost); every
 // received descriptor is closed; the runner literal always drops capabilities and sets no_new_privs.
@@ -452,9 +463,11 @@ package container
 
 // ---- host Build (C12): when building the environment fails after the container init has been started,
 // that init is killed and reaped before the error is returned - no process is left behind ----
-//@ func container.(*Builder).Build props C12
+//@ func container.(*Builder).Build props C12 C05 C04
 //@   arith int
 //@   requires b != nil && H.st == 0
+//@   callsite (*container).conf: assert @C05 (len(b.Mounts) != 0 ==> conf.Mounts == b.Mounts) && (len(b.MaskPaths) != 0 ==> conf.MaskPaths == b.MaskPaths) && conf.ContainerRoot == root && conf.WorkDir == workDir
+//@   callsite (*container).conf: assert @C04 conf.Cred == (b.CredGenerator != nil) && conf.ContainerUID == b.ContainerUID && conf.ContainerGID == b.ContainerGID && conf.UnshareCgroup == b.UnshareCgroupBeforeExec && conf.HostName == hostName && conf.DomainName == domainName
 //@   assigns H.st, H.batch, H.fds, PR.started, PR.killed, PR.waited, FD.closed, FD.cloexec, FC.closed
 //@   ensures @C12 result.1 != nil ==> forall p *os.Process :: PR.started[p] && !old(PR.started)[p] ==> PR.killed[p] && PR.waited[p]
 //@ func container.newPassCredSocketPair props C16
@@ -590,3 +603,22 @@ package container
 //@   assigns FD.cloexec, D.entries, FC.closed, P.st, S._all, FD._all, W._all, K._all, O._all, R._all, U._all, WA._all, FC._all, L._all
 //@   ensures @C16 err == nil
 //@   callsite unixsocket.NewSocket: assert @C06 fd == 3 && forall k int :: 0 <= k && k < len(D.entries) ==> FD.cloexec[atoi(dename(D.entries[k]))]
+
+// the default environment file of the container (host-provided content): memory safety
+//@ func container.readDotEnv props C10
+//@   arith int
+//@   assigns FC.closed
+//@   loop 0: invariant scanner != nil && f != nil
+
+// ---- the host's send loop (C10, C19): every queued command goes out through the framed SendMsg of the
+// control socket; a send error is recorded (socketError: every call in flight and every later call fails)
+// and ends the loop - no command is dropped silently, none is sent twice ----
+//@ func chan.recv:container.container.sendCh
+//@   assumed "role of sendCh: the next command queued by sendCmd"
+//@   pure
+//@ func container.(*container).sendLoop props C10 C19
+//@   arith int
+//@   requires c != nil && c.socket != nil && c.socket.Socket != nil && c.socket.Socket.UnixConn != nil && c.socket.encoder != nil
+//@   requires sep(c, c.socket) && sep(c.socket, c.socket.Socket) && sep(c, c.socket.Socket)
+//@   assigns SB._all, B._all, H.st
+//@   loop 0: invariant c == old(c) && c.socket == old(c.socket) && c.socket.Socket == old(c.socket.Socket) && c.socket.Socket.UnixConn == old(c.socket.Socket.UnixConn) && c.socket.encoder == old(c.socket.encoder)
